@@ -4,8 +4,10 @@
 import json, sys
 pid = sys.argv[1]
 n = int(sys.argv[2]) if len(sys.argv) > 2 else 3
+suffix = sys.argv[3] if len(sys.argv) > 3 else ''
+avoid = sys.argv[4] if len(sys.argv) > 4 else ''
 p = [json.loads(l) for l in open('/verif/properties.jsonl') if json.loads(l)['id'] == pid][0]
-print(f"""You are helping to evaluate a verification effort for the open-source Python hardware DSL pymtl3 (PyMTL3: elaboration, update-block scheduling, simulation passes, RTLIR type checking, Verilog/Yosys translation). You have your own scratch git worktree of the repository at /tmp/wt/{pid} (a detached checkout; work ONLY there and in /tmp/seed/{pid}; never touch /repo or /verif, and do not read anything under /verif).
+TEXT = (f"""You are helping to evaluate a verification effort for the open-source Python hardware DSL pymtl3 (PyMTL3: elaboration, update-block scheduling, simulation passes, RTLIR type checking, Verilog/Yosys translation). You have your own scratch git worktree of the repository at /tmp/wt/{pid} (a detached checkout; work ONLY there and in /tmp/seed/{pid}; never touch /repo or /verif, and do not read anything under /verif).
 
 Here is a semantic property of pymtl3 that is supposed to hold for every input / design / schedule:
 
@@ -25,3 +27,8 @@ For each change k = 1..{n}:
  6. `git -C /tmp/wt/{pid} checkout -- .` to restore the worktree (also delete stray files the tests left in the worktree root is not necessary).
 
 Important: the demo must test the PROPERTY (observable behaviour through pymtl3's public API), not the presence of a source line. Do not change test files, conftest, or packaging. Do not make changes that break the import of pymtl3 or that make most designs fail. Do not weaken/alter the demo to make it pass. If after serious effort you can only produce fewer than {n}, produce those. Finish with a short report listing, per change: file/function changed, one-line description, and confirmation of the three outcomes.""")
+TEXT = TEXT.replace(f"/tmp/wt/{pid}", f"/tmp/wt/{pid}{suffix}").replace(f"/tmp/seed/{pid}", f"/tmp/seed/{pid}{suffix}")
+if avoid:
+    TEXT += "\n\nEarlier rounds already produced the following changes for this property; produce changes that use DIFFERENT mechanisms, functions or files (do not repeat or trivially vary these):\n" + open(avoid).read()
+TEXT += "\n\nNever use `git stash` (it is shared between worktrees); use `git diff > file`, `git checkout -- .`, `git apply file`."
+print(TEXT)
